@@ -397,7 +397,11 @@ class Mitochondria:
         """
         result = self.metabolize(expression, MetabolicPathway.GLYCOLYSIS)
         if result.success and result.atp:
-            return str(result.atp.value)
+            try:
+                return str(result.atp.value)
+            except Exception as e:
+                # e.g. integers beyond the interpreter's int -> str digit limit
+                return f"Metabolic Failure: {type(e).__name__}: {e}"
         return f"Metabolic Failure: {result.error}"
 
     def _detect_pathway(self, expression: str) -> MetabolicPathway:
